@@ -313,3 +313,55 @@ func c10ResponseOtherID(idLen int) {
 
 func VerifC10ResponseOtherID32() { c10ResponseOtherID(32) }
 func VerifC10ResponseOtherID36() { c10ResponseOtherID(36) }
+
+// the same with the appended bytes forming one well-formed 36-byte extension field of any type except the
+// authenticator's, with arbitrary content (concrete lengths keep the walk over the fields concrete): neither
+// the identifier nor the cookies of an accepted request, nor the identifier a response is matched with, can
+// come from it
+func c10tailField() []byte {
+	tail := v.Bytes("tail", 36)
+	t := v.Uint16("tail.type")
+	v.Assume(t != extAuthenticator)
+	tail[0], tail[1], tail[2], tail[3] = byte(t>>8), byte(t), 0, 36
+	return tail
+}
+
+func VerifC10RequestTrailingField() {
+	key := v.Bytes("key", 32)
+	uid := v.Bytes("uid", 32)
+	cookie := v.Bytes("cookie", 8)
+	var pkt Packet
+	pkt.UniqueID.ID = uid
+	pkt.Cookies = append(pkt.Cookies, Cookie{Cookie: cookie})
+	pkt.Auth.Key = key
+	buf := make([]byte, 48)
+	EncodePacket(&buf, &pkt)
+	adv := make([]byte, 0, len(buf)+36)
+	adv = append(adv, buf...)
+	adv = append(adv, c10tailField()...)
+	var p2 Packet
+	if DecodePacket(&p2, adv) == nil && ProcessRequest(adv, key, &p2) == nil {
+		v.Assert(c10eq(p2.UniqueID.ID, uid), "C10.sound.trailing-field.request-id-is-the-authenticated-one")
+		v.Assert(len(p2.Cookies) == 1 && c10eq(p2.Cookies[0].Cookie, cookie), "C10.sound.trailing-field.request-cookies-are-the-authenticated-ones")
+	}
+	v.Reach("C10.requesttrailingfield")
+}
+
+func VerifC10ResponseTrailingField() {
+	s2c := v.Bytes("s2c", 32)
+	uid := v.Bytes("uid", 32)
+	resp := NewResponsePacket([][]byte{v.Bytes("cookie", 8)}, s2c, uid)
+	buf := make([]byte, 48)
+	copy(buf, v.Bytes("ntphdr", 48))
+	EncodePacket(&buf, &resp)
+	adv := make([]byte, 0, len(buf)+36)
+	adv = append(adv, buf...)
+	adv = append(adv, c10tailField()...)
+	reqID := v.Bytes("reqid", 32)
+	var f ntske.Fetcher
+	var p2 Packet
+	if DecodePacket(&p2, adv) == nil && ProcessResponse(adv, s2c, &f, &p2, reqID) == nil {
+		v.Assert(c10eq(reqID, uid), "C10.sound.trailing-field.does-not-change-the-id")
+	}
+	v.Reach("C10.responsetrailingfield")
+}
